@@ -8,7 +8,7 @@ CONSTANTS
  VTab <- MC_VTabA
  CRange <- MC_CRange
  Reqs <- MC_Reqs2
- Menu <- MC_MenuQ1
+ Menu <- MC_MenuQ2
  MaxConns = 3
  MaxMoves = 1
  MaxCancels = 0
@@ -17,9 +17,9 @@ CONSTANTS
  MaxExpire = 0
  MaxCloseIdle = 0
  Hist = TRUE
- Bug = "firstBroker"
+ Bug = "none"
  AnyConnId = FALSE
- MoveKinds = {"leader"}
+ MoveKinds = {"addr"}
 INVARIANTS TypeOK C12_Routing C12_Address C12_Version C12_FollowLeader C12_CacheFilter C06t_OwnResponse C06t_ReleaseOnlyAfterComplete C06t_NoReuseAfterFailure C09t_CancelPrompt
 PROPERTIES C12_GrabIsLatest C06t_DeadStaysDead
 CHECK_DEADLOCK FALSE
